@@ -80,6 +80,30 @@ def _is_minmax(e: ast.AST) -> str | None:
     return None
 
 
+class _CanonValue(ast.NodeTransformer):
+    """value spellings with one meaning: `d[k] if k in d else x` is `d.get(k, x)` (`d.get(k)` when x is None)."""
+
+    def visit_Lambda(self, n):  # noqa: N802
+        return n
+
+    def visit_IfExp(self, n: ast.IfExp):  # noqa: N802
+        self.generic_visit(n)
+        t_, a, b = n.test, n.body, n.orelse
+        neg = False
+        if isinstance(t_, ast.UnaryOp) and isinstance(t_.op, ast.Not):
+            t_, neg = t_.operand, True
+        if isinstance(t_, ast.Compare) and len(t_.ops) == 1 and isinstance(t_.ops[0], (ast.In, ast.NotIn)):
+            if isinstance(t_.ops[0], ast.NotIn):
+                neg = not neg
+            if neg:
+                a, b = b, a
+            k, d = t_.left, t_.comparators[0]
+            if isinstance(a, ast.Subscript) and norm(a.value) == norm(d) and norm(a.slice) == norm(k) and isinstance(d, (ast.Name, ast.Attribute)) and isinstance(k, (ast.Constant, ast.Name)):
+                args = [k] if (isinstance(b, ast.Constant) and b.value is None) else [k, b]
+                return _at(ast.Call(func=ast.Attribute(value=d, attr="get", ctx=ast.Load()), args=args, keywords=[]), n)
+        return n
+
+
 class _CanonCond(ast.NodeTransformer):
     """spellings of a condition that mean a conjunction / disjunction of simpler atoms are written as such:
     `None in (a, b)`            -> a is None or b is None
@@ -181,8 +205,9 @@ def _is_record_class(k: ClassInfo) -> bool:
 class Normaliser:
     """produces the canonical copy of one function."""
 
-    def __init__(self, repo, fi: FuncInfo, want: t.Callable[[FuncInfo], bool] | None = None, depth: int = 3):
+    def __init__(self, repo, fi: FuncInfo, want: t.Callable[[FuncInfo], bool] | None = None, depth: int = 3, cross_module: bool = False):
         self.repo = repo
+        self.cross_module = cross_module
         self.fi = fi
         self._want = want or (lambda h: True)
         self.depth = depth
@@ -190,6 +215,8 @@ class Normaliser:
         self._nested: dict[str, FuncInfo] = {}
         self._callable_alias: dict[str, tuple[ast.AST, list[ast.AST], list[ast.keyword]]] = {}
         self._object_class: dict[str, ClassInfo] = {}
+        self._dict_locals: dict[str, ast.AST] = {}
+        self._modstack: list[t.Any] = []
         self._receiver: dict[int, str] = {}  # id(call) -> name of the local object the method is called on
         self.inlined: list[FuncInfo] = []  # helpers whose code is now part of the copy
         self.refused: list[tuple[FuncInfo, str]] = []
@@ -223,13 +250,20 @@ class Normaliser:
                 self._receiver[id(call)] = f.value.id
                 return what, True
             return None
+        if self.cross_module and isinstance(f, ast.Attribute) and isinstance(f.value, ast.Name) and f.value.id in self.fi.module.imports and f.value.id not in self._object_class:
+            target = self.repo.canonical(self.fi.module.imports[f.value.id])
+            m2 = self.repo.modules.get(target)
+            if m2 is not None and f.attr in m2.functions and not m2.functions[f.attr].decorators:
+                return m2.functions[f.attr], False
         if isinstance(f, ast.Name):
             nested = self._nested.get(f.id)
             if nested is not None:
                 return nested, False
-            h = self.fi.module.functions.get(f.id)
-            if h is not None and not h.decorators:
-                return h, False
+            # inside the expansion of a helper of another module, plain names are that module's functions
+            for mod in ([self._modstack[-1]] if self._modstack else []) + [self.fi.module]:
+                h = mod.functions.get(f.id)
+                if h is not None and not h.decorators:
+                    return h, False
         return None
 
     def _scan_locals(self, fn: ast.AST, selfname: str | None) -> None:
@@ -238,6 +272,7 @@ class Normaliser:
         self._nested: dict[str, FuncInfo] = {}
         self._callable_alias: dict[str, tuple[ast.AST, list[ast.AST], list[ast.keyword]]] = {}
         self._object_class: dict[str, ClassInfo] = {}
+        self._dict_locals: dict[str, ast.AST] = {}
         defs: dict[str, list[ast.AST]] = {}
         for x in walk_no_nested(fn):
             if isinstance(x, (ast.FunctionDef,)) and x is not fn:
@@ -256,6 +291,10 @@ class Normaliser:
                     self._callable_alias[name] = (v, [], [])
                 elif isinstance(v, ast.Name) and (v.id in self.fi.module.functions):
                     self._callable_alias[name] = (v, [], [])
+                elif isinstance(v, ast.Dict) or (isinstance(v, ast.Call) and dotted(v.func) == "dict" and not v.args):
+                    stores = [y for y in walk_no_nested(fn) if isinstance(y, ast.Subscript) and isinstance(y.value, ast.Name) and y.value.id == name and isinstance(y.ctx, (ast.Store, ast.Del))]
+                    if not stores:
+                        self._dict_locals[name] = v
                 elif isinstance(v, ast.Call) and (dotted(v.func) or "").rsplit(".", 1)[-1] == "partial" and v.args and not any(isinstance(a, ast.Starred) for a in v.args) and all(k.arg is not None for k in v.keywords):
                     self._callable_alias[name] = (v.args[0], list(v.args[1:]), list(v.keywords))
 
@@ -277,7 +316,7 @@ class Normaliser:
             elif isinstance(x, (ast.AugAssign, ast.NamedExpr, ast.For, ast.With)):
                 tgt = x.target if hasattr(x, "target") else None
                 for y in ast.walk(tgt) if tgt is not None else []:
-                    if isinstance(y, ast.Name):
+                    if isinstance(y, ast.Name) and (isinstance(y.ctx, ast.Store) or y is tgt):
                         vals.setdefault(y.id, []).append(None)
         for name, vs in vals.items():
             ks = set()
@@ -337,6 +376,30 @@ class Normaliser:
         return None
 
     def _bind(self, h: FuncInfo, call: ast.Call, bound: bool) -> dict[str, ast.AST] | None:
+        if any(k.arg is None for k in call.keywords):
+            # f(**options) with `options` a local bound once to a dict display / dict(k=v): spelled-out keywords
+            kws: list[ast.keyword] = []
+            for k in call.keywords:
+                v = k.value
+                if k.arg is None and isinstance(v, ast.Name) and v.id in self._dict_locals:
+                    v = self._dict_locals[v.id]
+                if k.arg is not None:
+                    kws.append(k)
+                elif isinstance(v, ast.Dict) and all(isinstance(x, ast.Constant) and isinstance(x.value, str) for x in v.keys):
+                    kws.extend(ast.keyword(arg=x.value, value=clone(y)) for x, y in zip(v.keys, v.values))  # type: ignore[union-attr]
+                elif isinstance(v, ast.Call) and dotted(v.func) == "dict" and not v.args and all(x.arg is not None for x in v.keywords):
+                    kws.extend(clone(x) for x in v.keywords)
+                else:
+                    return None
+            call = ast.Call(func=call.func, args=call.args, keywords=kws)
+        if any(isinstance(x, ast.Starred) and isinstance(x.value, (ast.Tuple, ast.List)) and not any(isinstance(y, ast.Starred) for y in x.value.elts) for x in call.args):
+            flat: list[ast.AST] = []
+            for x in call.args:  # f(*(a, b)) is f(a, b)
+                if isinstance(x, ast.Starred) and isinstance(x.value, (ast.Tuple, ast.List)):
+                    flat.extend(x.value.elts)
+                else:
+                    flat.append(x)
+            call = ast.Call(func=call.func, args=flat, keywords=call.keywords)
         a = h.node.args  # type: ignore[attr-defined]
         if a.vararg or a.kwarg or any(isinstance(x, ast.Starred) for x in call.args) or any(k.arg is None for k in call.keywords):
             return None
@@ -369,7 +432,7 @@ class Normaliser:
     def _expand_expr(self, e: ast.AST, selfname: str | None, depth: int) -> ast.AST:
         """expression helpers (single `return <expr>`) and properties of the own class are substituted."""
         norm_ = self
-        e = _CanonCond().visit(e)
+        e = _CanonCond().visit(_CanonValue().visit(e))
 
         class T(ast.NodeTransformer):
             def visit_Lambda(self, n):  # noqa: N802
@@ -424,7 +487,11 @@ class Normaliser:
                 new = S().visit(clone(body))
                 if h not in norm_.inlined:
                     norm_.inlined.append(h)
-                return _at(norm_._expand_expr(new, selfname, depth - 1), n)
+                norm_._modstack.append(h.module)
+                try:
+                    return _at(norm_._expand_expr(new, selfname, depth - 1), n)
+                finally:
+                    norm_._modstack.pop()
 
         return T().visit(e)
 
@@ -527,7 +594,11 @@ class Normaliser:
         out.append(wrapper)
         if h not in self.inlined:
             self.inlined.append(h)
-        out = self._block(out, selfname, depth - 1)
+        self._modstack.append(h.module)
+        try:
+            out = self._block(out, selfname, depth - 1)
+        finally:
+            self._modstack.pop()
         return out, ret
 
     # -- lowering of conditional values --------------------------------------
@@ -684,6 +755,13 @@ class Normaliser:
             stop_ = _at(ast.If(test=ast.Compare(left=_name(st.target.id), ops=[ast.Eq()], comparators=[sentinel]), body=[ast.Break()], orelse=[]), st)
             loop = _at(ast.While(test=ast.Constant(value=True), body=[take, stop_] + st.body, orelse=[]), st)
             return self._stmt(loop, selfname, depth)
+        elif isinstance(st, ast.For) and isinstance(st.iter, (ast.Tuple, ast.List)) and 0 < len(st.iter.elts) <= 8 and all(isinstance(x, ast.Constant) for x in st.iter.elts) and not st.orelse and isinstance(st.target, ast.Name) and not any(isinstance(x, (ast.Break, ast.Continue)) for b_ in st.body for x in [b_, *walk_no_nested(b_)]):
+            # a loop over a short literal list of constants is its body, once per constant
+            out_: list[ast.stmt] = []
+            for c_ in st.iter.elts:
+                out_.append(_at(ast.Assign(targets=[_name(st.target.id, True)], value=clone(c_), type_comment=None), st))
+                out_.extend(self._block([clone(b_) for b_ in st.body], selfname, depth))
+            return out_
         elif isinstance(st, (ast.For, ast.AsyncFor)):
             st.iter = self._expand_expr(st.iter, selfname, depth)
             pre, st.iter = self._hoist_nested(st.iter, selfname, depth, st)
@@ -723,6 +801,16 @@ class Normaliser:
             return pre
         if isinstance(st, (ast.Assign, ast.AnnAssign)) and isinstance(st.value, ast.Call) and depth > 0:
             tg = st.targets[0] if isinstance(st, ast.Assign) and len(st.targets) == 1 else st.target if isinstance(st, ast.AnnAssign) else None
+            if isinstance(tg, ast.Attribute) and isinstance(st.value.func, ast.Name) and st.value.func.id in self.fi.module.classes:
+                # self._state = K(a, b): build the object under a temporary name (running K.__init__ on it), then store it
+                k0 = self.fi.module.classes[st.value.func.id]
+                if k0 is not self.fi.cls and _is_record_class(k0) and "__init__" in k0.methods and self._inlinable_body(k0.methods["__init__"]) is None:
+                    self.counter += 1
+                    tmp = f"_o{self.counter}"
+                    self._object_class[tmp] = k0
+                    made = _at(ast.Assign(targets=[_name(tmp, True)], value=st.value, type_comment=None), st)
+                    st.value = _at(_name(tmp), st)
+                    return pre + self._stmt(made, selfname, depth) + [st]
             if isinstance(tg, ast.Name) and tg.id in self._object_class:
                 k = self._record_class_of(st.value)
                 init = k.methods.get("__init__") if k is not None and isinstance(st.value.func, ast.Name) else None
@@ -787,8 +875,8 @@ class NFunc:
         return self.fi.node
 
 
-def normalise(repo, fi: FuncInfo, want: t.Callable[[FuncInfo], bool] | None = None, depth: int = 3) -> NFunc:
-    return Normaliser(repo, fi, want, depth).run()
+def normalise(repo, fi: FuncInfo, want: t.Callable[[FuncInfo], bool] | None = None, depth: int = 3, cross_module: bool = False) -> NFunc:
+    return Normaliser(repo, fi, want, depth, cross_module).run()
 
 
 def invariant_env(nf: NFunc, node: Node) -> dict[str, ast.AST]:
@@ -1136,12 +1224,16 @@ def _is_record_ctor(e: ast.Call) -> bool:
 
 
 def _is_fresh_object(e: ast.AST) -> bool:
+    if isinstance(e, (ast.List, ast.Dict, ast.Set)):
+        return True  # a display builds a new container
     return isinstance(e, ast.Call) and (dotted(e.func) or "").rsplit(".", 1)[-1] in ("bytearray", "BytesIO", "list", "dict", "memoryview", "LimitedStream")
 
 
 def _never_none(e: ast.AST) -> bool:
     if _is_fresh_object(e):
         return True
+    if isinstance(e, ast.Call) and (dotted(e.func) or "").rsplit(".", 1)[-1].lstrip("_")[:1].isupper():
+        return True  # the construction of an object
     if isinstance(e, ast.Call) and (dotted(e.func) or "").rsplit(".", 1)[-1] in ("len", "min", "max", "int", "bytes", "abs", "_plain_int", "bytearray", "str"):
         return True
     if isinstance(e, ast.Constant):
@@ -1420,6 +1512,18 @@ class Path:
                 return v
         return None
 
+    def truth(self, e: ast.AST | None) -> bool | None:
+        """truth value of a (substituted) boolean expression on this path: a constant, or an atom the path decided."""
+        if e is None:
+            return None
+        if isinstance(e, ast.Constant):
+            return bool(e.value) if isinstance(e.value, (bool, int)) or e.value is None else None
+        c = canon_atom(e)
+        if isinstance(c, bool):
+            return c
+        v = self.val(c[0])
+        return None if v is None else (v == c[1])
+
     def calls(self, pred: t.Callable[[Ev], bool]) -> list[Ev]:
         return [e for e in self.events if pred(e)]
 
@@ -1439,7 +1543,7 @@ class Path:
 
 
 class _State:
-    __slots__ = ("env", "conds", "cmap", "events", "steps", "counter", "epoch", "at", "seen", "seen2")
+    __slots__ = ("env", "conds", "cmap", "events", "steps", "counter", "epoch", "at", "seen", "seen2", "visits")
 
     def __init__(self) -> None:
         self.env: dict[str, ast.AST] = {}
@@ -1452,6 +1556,7 @@ class _State:
         self.at: dict[int, tuple[int, int, dict[str, ast.AST]]] = {}
         self.seen: frozenset[int] = frozenset()
         self.seen2: frozenset[tuple[int, int]] = frozenset()
+        self.visits: dict[int, int] = {}
 
     def fork(self) -> "_State":
         s = _State()
@@ -1465,6 +1570,7 @@ class _State:
         s.at = dict(self.at)
         s.seen = self.seen
         s.seen2 = self.seen2
+        s.visits = self.visits
         return s
 
 
@@ -1482,20 +1588,46 @@ def class_writes(cls: ClassInfo | None) -> dict[str, set[str] | None]:
             direct[name] = w
             callees[name] = cs
             continue
+        # locals that are plain aliases of a chain rooted at self: `state = self._state`
+        alias: dict[str, str] = {}
+        counts: dict[str, int] = {}
         for x in ast.walk(fi.node):
-            if isinstance(x, ast.Attribute) and isinstance(x.value, ast.Name) and x.value.id == sn:
+            if isinstance(x, ast.Name) and isinstance(x.ctx, ast.Store):
+                counts[x.id] = counts.get(x.id, 0) + 1
+        for x in ast.walk(fi.node):
+            if isinstance(x, ast.Assign) and len(x.targets) == 1 and isinstance(x.targets[0], ast.Name) and counts.get(x.targets[0].id) == 1:
+                d_ = dotted(x.value)
+                if d_ and d_.startswith(sn + ".") and isinstance(x.value, ast.Attribute):
+                    alias[x.targets[0].id] = d_
+
+        def chain(x: ast.AST) -> str | None:
+            d_ = dotted(x)
+            if not d_:
+                return None
+            root, _, rest = d_.partition(".")
+            if root in alias and rest:
+                d_ = alias[root] + "." + rest
+                root, _, rest = d_.partition(".")
+            return rest if root == sn and rest else None
+
+        for x in ast.walk(fi.node):
+            if isinstance(x, ast.Attribute):
+                path = chain(x)
+                if path is None:
+                    continue
                 p = getattr(x, "_parent", None)
                 if isinstance(x.ctx, (ast.Store, ast.Del)):
-                    w.add(x.attr)
+                    w.add(path)
                 elif isinstance(p, ast.Subscript) and p.value is x and isinstance(p.ctx, (ast.Store, ast.Del)):
-                    w.add(x.attr)
+                    w.add(path)
                 elif isinstance(p, ast.Attribute) and p.value is x and isinstance(getattr(p, "_parent", None), ast.Call) and getattr(p, "_parent").func is p and p.attr in MUTATORS:
-                    w.add(x.attr)
-                elif isinstance(p, ast.Call) and p.func is x:
+                    w.add(path)
+                elif isinstance(p, ast.Call) and p.func is x and "." not in path:
                     cs.add(x.attr)
         direct[name] = w
         callees[name] = cs
     allw: set[str] = set().union(*[v for k, v in direct.items() if k != "__init__"]) if direct else set()
+    stored: set[str] = set().union(*direct.values()) if direct else set()
     out: dict[str, set[str] | None] = {}
     for name in cls.methods:
         acc: set[str] = set()
@@ -1508,6 +1640,8 @@ def class_writes(cls: ClassInfo | None) -> dict[str, set[str] | None]:
                 continue
             seen.add(m)
             if m not in direct:
+                if m in stored:
+                    continue  # `self.factory(...)`: a callable kept in an attribute, it has no access to self
                 unknown = True
                 continue
             acc |= direct[m]
@@ -1628,6 +1762,12 @@ class Sym:
         a = atom
         while isinstance(a, ast.UnaryOp) and isinstance(a.op, ast.Not):
             a, neg = a.operand, not neg
+        if isinstance(a, ast.Compare) and len(a.ops) == 1 and isinstance(a.ops[0], (ast.Is, ast.IsNot, ast.Eq, ast.NotEq)):
+            x, y = a.left, a.comparators[0]
+            dx, dy = dotted(x), dotted(y)
+            if dx and dy and "." in dx and "." in dy and dx.rsplit(".", 1)[0] == dy.rsplit(".", 1)[0] and self._is_enum(dx.rsplit(".", 1)[0]):
+                same = dx == dy  # two members of one Enum
+                return (same == isinstance(a.ops[0], (ast.Is, ast.Eq))) != neg
         if isinstance(a, ast.Compare) and len(a.ops) == 1 and isinstance(a.ops[0], (ast.Is, ast.IsNot)):
             x, y = a.left, a.comparators[0]
             pos = isinstance(a.ops[0], ast.Is)
@@ -1642,6 +1782,10 @@ class Sym:
                         return r != neg
                     return r[0], (r[1] != neg)
         return canon_atom(atom)
+
+    def _is_enum(self, name: str) -> bool:
+        k = self.nf.orig.module.classes.get(name.rsplit(".", 1)[-1])
+        return k is not None and any((dotted(b) or "").rsplit(".", 1)[-1] in ("Enum", "IntEnum", "StrEnum", "Flag") for b in k.node.bases)
 
     def _sentinel_identity(self, atom: ast.AST) -> bool | None:
         neg = False
@@ -1741,6 +1885,8 @@ class Sym:
         v = vs[0]
         if isinstance(v, (ast.Tuple, ast.List)) and v.elts and all(isinstance(x, ast.Constant) for x in v.elts):
             return clone(v)
+        if isinstance(v, ast.Constant) and isinstance(v.value, (int, str, bytes)) and not isinstance(v.value, bool):
+            return clone(v)  # a named number / string
         return None
 
     def _locals(self) -> set[str]:
@@ -1753,6 +1899,20 @@ class Sym:
         """`state.held` for a local object `state` (a small record the function keeps its per-round state in)."""
         if isinstance(e, ast.Attribute) and isinstance(e.value, ast.Name) and e.value.id != self.selfname and e.value.id in self._locals():
             return f"{e.value.id}.{e.attr}"
+        return None
+
+    def _path_key(self, base: ast.AST | None, attr: str) -> str | None:
+        """location key of `<base>.<attr>` when base (already evaluated) is a stable reference: a chain of attributes
+        rooted at self (`self._state.pos`, also through a local alias `state = self._state`), or an object known only
+        by name (an opaque result, a local whose value is not known)."""
+        d = dotted(base) if base is not None else None
+        if not d:
+            return None
+        root = d.split(".", 1)[0]
+        if root == self.selfname and "." in d:
+            return f"{d}.{attr}"
+        if isinstance(base, ast.Name) and (root.startswith("\u03a3") or "\u00b7" in root or root in self._locals()):
+            return f"{d}.{attr}"
         return None
 
     def _forget_object(self, name: str, st: _State, k: int) -> None:
@@ -1812,10 +1972,13 @@ class Sym:
                 if cv is not None:
                     return cv
                 return ast.Attribute(value=ast.Name(id=self.selfname, ctx=ast.Load()), attr=e.attr, ctx=ast.Load())
+            base = self.ev(e.value, st, node)
+            pk = self._path_key(base, e.attr)
+            if pk is not None and pk in st.env:
+                return clone(st.env[pk])
             ok_ = self._obj_key(e)
             if ok_ is not None and ok_ in st.env:
                 return clone(st.env[ok_])
-            base = self.ev(e.value, st, node)
             fv = field_of(base, e.attr, self.nf.orig.module)  # a record built / copied earlier on the path
             if fv is not None:
                 return clone(fv)
@@ -1871,8 +2034,10 @@ class Sym:
             return self.ev(e.args[1], st, node)  # typing.cast(T, x) is x
         if isinstance(e.func, ast.Attribute):
             sk = self._self_key(e.func)
-            if sk is not None:
-                func: ast.AST = ast.Attribute(value=ast.Name(id=self.selfname, ctx=ast.Load()), attr=e.func.attr, ctx=ast.Load())
+            if sk is not None and sk in st.env:
+                func: ast.AST = clone(st.env[sk])  # a callable the attribute is known to hold
+            elif sk is not None:
+                func = ast.Attribute(value=ast.Name(id=self.selfname, ctx=ast.Load()), attr=e.func.attr, ctx=ast.Load())
             else:
                 func = ast.Attribute(value=self.ev(e.func.value, st, node), attr=e.func.attr, ctx=ast.Load())
         else:
@@ -1897,6 +2062,8 @@ class Sym:
             args = list(func.args[1:]) + args  # functools.partial(f, a)(b) is f(a, b)
             kws = list(func.keywords) + kws
             func = func.args[0]
+        if isinstance(func, ast.Attribute) and func.attr == "get" and len(args) == 2 and not kws and isinstance(args[1], ast.Constant) and args[1].value is None:
+            args = args[:1]  # d.get(k, None) is d.get(k)
         call = ast.Call(func=func, args=args, keywords=kws)
         if self._is_pure(e, func):
             st.events.append(Ev(None, node, call, e, "call", len(st.conds)))
@@ -1986,14 +2153,25 @@ class Sym:
             if sk is not None:
                 st.env[sk] = v
             else:
-                ok_ = self._obj_key(tg)
+                obj = self.ev(tg.value, st, node)
+                pk = self._path_key(obj, tg.attr)
+                ok_ = pk if pk is not None else self._obj_key(tg)
                 if ok_ is not None:
                     st.env[ok_] = clone(v)
-                obj = self.ev(tg.value, st, node)
                 st.events.append(Ev(None, node, _fx(ast.Assign(targets=[ast.Attribute(value=obj, attr=tg.attr, ctx=ast.Store())], value=clone(v), type_comment=None)), raw, "store", len(st.conds)))
         elif isinstance(tg, ast.Subscript):
             base = self.ev(tg.value, st, node)
             sl = self.ev(tg.slice, st, node)
+            if isinstance(tg.value, ast.Name) and isinstance(base, ast.Dict) and isinstance(sl, ast.Constant) and all(isinstance(k_, ast.Constant) for k_ in base.keys):
+                # d["k"] = v on a local dict whose keys are known: the dict with that entry set
+                keys_ = [k_.value for k_ in base.keys]  # type: ignore[union-attr]
+                nd = ast.Dict(keys=list(base.keys), values=list(base.values))
+                if sl.value in keys_:
+                    nd.values[keys_.index(sl.value)] = clone(v)
+                else:
+                    nd.keys.append(ast.Constant(value=sl.value))
+                    nd.values.append(clone(v))
+                st.env[tg.value.id] = nd
             st.events.append(Ev(None, node, _fx(ast.Assign(targets=[ast.Subscript(value=base, slice=sl, ctx=ast.Store())], value=clone(v), type_comment=None)), raw, "store", len(st.conds)))
             sk = self._self_key(tg.value)
             if sk is not None:
@@ -2062,7 +2240,10 @@ class Sym:
         exc: t.Callable[[Node], bool] | None = None,
         env0: dict[str, ast.AST] | None = None,
         max_paths: int = 6000,
+        rounds: int = 1,
     ) -> list[Path]:
+        """`rounds`: how many times a path may pass one node (2 = every loop body is gone through up to twice, so that what
+        one round leaves behind - a flag, a test at the tail - is seen by the next)."""
         cfg = self.cfg
         out: list[Path] = []
         st0 = _State()
@@ -2115,7 +2296,10 @@ class Sym:
                 if stop is not None and stop(n):
                     finish(st, "stop", None, n)
                     continue
-            if n.id in st.seen:
+            if n.id in st.seen and rounds > 1 and st.visits.get(n.id, 0) < rounds:
+                st.visits = dict(st.visits)
+                st.visits[n.id] = st.visits.get(n.id, 0) + 1
+            elif n.id in st.seen:
                 # back at a loop head: the loop condition is looked at once more under the state reached now; if that state
                 # decides it (a flag that was set, a condition already on the path) the path goes on, otherwise it ends here
                 if n.kind in ("join", "test") and (n.id, 2) not in st.seen2:
@@ -2141,6 +2325,9 @@ class Sym:
                     continue
                 finish(st, "loop", None, n)
                 continue
+            if n.id not in st.seen:
+                st.visits = dict(st.visits)
+                st.visits[n.id] = 1
             st.seen = st.seen | {n.id}
             if watch is not None and watch(n):
                 st.at[n.id] = (len(st.conds), len(st.events), dict(st.env))
